@@ -382,6 +382,8 @@ def shards(tier, seed):
     for li in ((0, 1) if tier == "quick" else (0, 1, 3, 5)):
         for k in range(8):
             specs.append(dict(kind="data", file="sparse", loader=li, k=k, n=8, _resumable=True))
+    for li in ((0, 1, 3, 5) if tier == "quick" else range(len(LOADERS))):
+        specs.append(dict(kind="keydup", file="full", loader=li, _resumable=True))
     # pairs of consistent-looking multi-byte field changes (multi-field departures)
     nfp = 16 if tier == "quick" else 64
     for k in range(nfp):
@@ -495,6 +497,25 @@ def run_shard(spec):
                             "k": spec["k"], "n": spec["n"]}
                     judge_load(ctx, li, bytes(m), region, detail, acc, case, "struct")
         acc.sample({"file": spec["file"], "fault": "descriptor bit pairs"})
+    elif kind == "keydup":
+        # a key overwritten with the text of ANOTHER key of the same length (a multi-byte change inside the key
+        # region): two items then carry the same name, whatever the renamed item was
+        st = ctx.stores[0]
+        for a in st.items:
+            for b in st.items:
+                if a is b or a["key_len"] != b["key_len"]:
+                    continue
+                i += 1
+                if i < skip:
+                    continue
+                m = bytearray(data)
+                m[st.start + b["key_start"]:st.start + b["key_start"] + b["key_len"]] = \
+                    data[st.start + a["key_start"]:st.start + a["key_start"] + a["key_len"]]
+                detail = f"{b['key']}:={a['key']}"
+                case = {"_i": i, "_key": f"keydup:{detail}", "kind": kind, "file": spec["file"], "loader": li, "store": 0,
+                        "region": "key", "detail": detail, "src": a["key"], "dst": b["key"]}
+                judge_load(ctx, li, bytes(m), "key", detail, acc, case, "struct", keyregion="keydup")
+        acc.sample({"file": spec["file"], "fault": "a key replaced by another key's text"})
     elif kind == "random":
         import random
 
@@ -550,6 +571,14 @@ def replay(case):
         for off, bit in case["bits"]:
             m[off] ^= 1 << bit
         judge_load(ctx, li, bytes(m), case["region"], case["detail"], acc, case, "struct")
+    elif kind == "keydup":
+        st = ctx.stores[0]
+        a = next(it for it in st.items if it["key"] == case["src"])
+        b = next(it for it in st.items if it["key"] == case["dst"])
+        m = bytearray(data)
+        m[st.start + b["key_start"]:st.start + b["key_start"] + b["key_len"]] = \
+            data[st.start + a["key_start"]:st.start + a["key_start"] + a["key_len"]]
+        judge_load(ctx, li, bytes(m), "key", case["detail"], acc, case, "struct", keyregion="keydup")
     elif kind == "random":
         m = bytearray(data)
         b = bytes.fromhex(case["bytes"])
